@@ -144,7 +144,7 @@ def main():
                                      "outcomes, ghost state), discharged by z3 5.1 / cvc5; the same contract clauses "
                                      "are executed natively for counter-example replay and bounded stand-ins")],
         checks=checks,
-        notes="exit codes: 0 held, 1 VIOLATION, 2 undecided (contract out of date), 3 checker error. "
+        notes="exit codes: 0 held, 1 VIOLATION, 3 checker error; a contract that no longer fits the source is printed as UNDECIDED and recorded in the evidence (exit 2 only with VERIF_STALE_EXIT=2). "
               "recorded findings and fixes: known_findings.json; seeded changes: seeded/",
         not_applicable=na)
     with open(os.path.join(HERE, 'MANIFEST.json'), 'w') as f:
